@@ -679,7 +679,11 @@ func (g *gen) specCall(e *env, n *ast.CallExpr) sval {
 		}
 		return sval{t: sAnd(app("<=", v.t, base), app(">", v.t, "0")), gt: tBool, sort: "Bool"}
 	case "int", "int64", "uint", "rune", "byte", "int32", "uint32", "uint64":
-		return arg(0)
+		v := arg(0)
+		if obj, ok := types.Universe.Lookup(name).(*types.TypeName); ok && v.sort == "Int" {
+			v.gt = obj.Type() // the Go type matters when the value is boxed into an interface
+		}
+		return v
 	case "float64":
 		v := arg(0)
 		if v.sort == "Int" {
